@@ -2,7 +2,7 @@
 import ast
 
 from ..core import AnalysisError, call_name, dotted, src, walk_shallow, is_const
-from ..lib import Rules, need, find_loops
+from ..lib import Soft, Rules, need, find_loops
 from . import refcheck
 
 CN = 'pero_ocr.decoding.confusion_networks'
